@@ -137,7 +137,7 @@ class Gen:
             return {"s": s, "op": "search", "uid": r.random() < 0.5, "key": key}
         if kind == "expunge":
             op = {"s": s, "op": "expunge"}
-            if r.random() < 0.3:
+            if r.random() < p.get("uidexpunge_p", 0.3):
                 op["uidset"] = self.posset(n, False)
             return op
         if kind == "close":
